@@ -12,19 +12,30 @@ PROPS = {
             'do_golden_runs/matches_golden on timed-out records'),
     'C04': ('contracts.c04', 'proof',
             'exception freedom of main-process functions on all '
-            's-expression shapes; containment of mutator failures; exit '
-            'status'),
+            's-expression shapes / texts / lists of any size (scanner, '
+            'renderers, traversals, rebuilding traversals unbounded); '
+            'containment of mutator failures; interrupts; exit status; deep '
+            'nesting native'),
     'C12': ('contracts.c12', 'exploration',
-            'Node equality/hash on all shape pairs with symbolic contents; '
-            'copy/pickle/traversal native bounded; binary_search proved'),
+            'unbounded: Node.__eq__ on two trees, __deepcopy__, dfs (incl. '
+            'max_depth), bfs, count_nodes, count_exprs, binary_search; '
+            'shape-bounded: __eq__/__hash__ on all shape pairs incl. '
+            'coercions; native: pickle, bfs max_depth, filter_nodes'),
     'C11': ('contracts.c11', 'exploration',
-            'substitute against a recursive reference (bounded native); '
-            'introduce_variables/apply_simp symbolic contracts'),
+            'unbounded: substitute with structural keys against the '
+            'reference substitution, introduce_variables on lists of any '
+            'length; shape-bounded / native: identity keys, identity of '
+            'untouched subtrees; apply_simp wiring symbolic'),
     'C13': ('contracts.c13', 'exploration',
-            'reduplicate on DAGs (bounded native) + call-site obligations'),
+            'call sites proved; reduplicate unbounded for structure/tokens '
+            'and the local id rules; global distinctness of ids on sharing '
+            'patterns (shape-bounded) and DAGs (native)'),
     'C02': ('contracts.c02', 'proof',
             'hierarchical reduce: a pass is left only after an unsuccessful '
-            'fresh sweep (loop invariants over all schedules)'),
+            'fresh sweep (loop invariants over all schedules); '
+            'Producer.generate complete for inputs / mutator lists / '
+            'proposal streams of any length; last pass holds every enabled '
+            'mutator'),
     'C05': ('contracts.c05', 'proof',
             'chain of accepted inputs, no stale adoption: loop invariants '
             'over both strategies with havocked completion orders'),
@@ -36,8 +47,9 @@ PROPS = {
             'crash-point invariant of write_smtlib_to_file over a ghost '
             'file system; interrupt handlers write nothing'),
     'C07': ('contracts.c07', 'exploration',
-            'stack renderers: ghost denotation of the work list (unbounded); '
-            'pretty printer and re-parse bounded'),
+            'four renderers, Node.__str__, write_smtlib: tokens written == '
+            'FLAT(input) by ghost denotation of the work list (unbounded); '
+            're-parsing the character text bounded'),
     'C08': ('contracts.c08', 'proof',
             'scanner: loop invariants + per-iteration reader step over an '
             'array-modelled text; exhaustive comparison with a reference '
